@@ -1074,12 +1074,12 @@ def run(chk):
 
     # tokenizer
     exprs = []
-    ctxs = [G.gen_ctx(rng) for _ in range(chk.budget(150, 1500))]
+    ctxs = [G.gen_ctx(rng) for _ in range(chk.budget(300, 5000))]
     for ctx in ctxs:
         for _ in range(4):
             exprs.append(G.render(G.gen_template(rng, ctx)))
     exprs += [G.mutate(rng, e) for e in exprs if rng.random() < 0.7]
-    exprs += [G.gen_free_text(rng) for _ in range(chk.budget(600, 6000))]
+    exprs += [G.gen_free_text(rng) for _ in range(chk.budget(1000, 20000))]
     # exhaustive: all strings of length ≤ 4 over the lexer's distinguishing alphabet
     small = [""]
     layer = [""]
@@ -1120,27 +1120,72 @@ def run(chk):
 
     # links
     lcases = []
-    for _ in range(chk.budget(250, 2500)):
+    for _ in range(chk.budget(400, 8000)):
         ctx = gen_link_ctx(rng)
         lcases.append((ctx, gen_link(rng, ctx)))
-    corr_link(chk, lcases, cfg, real_draws=chk.budget(25, 250))
+    corr_link(chk, lcases, cfg, real_draws=chk.budget(40, 800))
 
     # end to end: the real state machine (bundles, matchers, rules, into_step_input, openapi_cases) on a scripted API
-    corr_state_machine(chk, cfg, chk.budget(12, 150))
+    corr_state_machine(chk, cfg, chk.budget(15, 400))
 
     # resolve_pointer and int()
     cases = []
-    for _ in range(chk.budget(2500, 30000)):
+    for _ in range(chk.budget(4000, 100000)):
         doc = G.gen_doc(rng, 3)
         cases.append((doc, G.gen_pointer(rng, doc)))
     corr_pointer(chk, cases, idx)
     corr_pyint(chk)
 
     # status keys
-    scases = [G.gen_status_case(rng, bad=rng.random() < 0.15) for _ in range(chk.budget(3000, 30000))]
+    scases = [G.gen_status_case(rng, bad=rng.random() < 0.15) for _ in range(chk.budget(4000, 100000))]
     corr_status(chk, scases)
 
     chk.exhaustive = False
+    chk.proved += [
+        "lexer_partition / lexer_positions / lexer_tokens_nonempty / lexer_fuel_suffices: the cursor machine partitions "
+        "every expression, `end` offsets are exact, termination by |expr| - cursor",
+        "unescape_is_rfc6901_decoding, unescape_escape_roundtrip, resolve_mkPointer, resolve_member: ~0/~1 handling and "
+        "pointer round trips for all strings",
+        "resolve_repaired_eq_spec: repaired resolve_pointer = RFC 6901 evaluation for all documents and pointers; "
+        "resolve_asFound_partial + resolve_full_false/resolve_asFound_witnesses for the snapshot (F17)",
+        "status_match_iff / status_exact / status_range / status_filter_spec / matcher_sound / "
+        "link_followed_only_from_matching_status: exact / NXX / default matching and first-match bundle selection",
+        "parser_position_free, parser_sound (parser o printer = id on the grammar's syntax trees), parser_full_false (FC10b), "
+        "stray_pointer_witness (FC10a)",
+        "eval_sound: evaluate(render t) = reference evaluation of t for all well-formed link values and exchanges "
+        "(repaired variants); eval_full_false (F17 reaches link values)",
+        "step_input_values / step_input_override / merge_body_members / body_replaced_or_untouched: what "
+        "into_step_input passes; unresolvable / failed values are never passed",
+        "cache_key_sound: the lru_cache keyed by case id returns what _extract_impl computes, given unique case ids",
+    ]
+    chk.partial += [
+        "rejection of malformed expressions (unknown $-word, bad source, unbalanced/nested braces, invalid extractor) is "
+        "NOT proved: it is checked on every generated/mutated expression and exhaustively on all strings of length <= 4/5 "
+        "over {$ . { } # a} against an independent Python classifier",
+        "parser_sound / eval_sound cover link values whose literal text has no `#` and names without `$ . { } #`; "
+        "str() of floats / lists / dicts inside an embedding and json.dumps of container-valued object keys are out of "
+        "the model (counted as out-of-model, compared by nobody)",
+        "eval_sound is stated for the repaired array-index site; for the snapshot only resolve_asFound_partial holds",
+        "regular expressions are an oracle (re.compile(...).groups, search(...).group(1)) supplied by the harness from "
+        "Python's re module; `$url` is an opaque string computed by requests",
+    ]
+    chk.sampled_only += [
+        "OpenApiLink._normalize_parameters / extract_parameters / extract_body and into_step_input agree with the model "
+        "on generated link definitions (real OpenApiLink objects, real Hypothesis draw through a recording target; a "
+        "sample through the real target operation shows explicit values survive openapi_cases)",
+        "live state machine (real bundles, matchers, preconditions, rules, into_step_input, openapi_cases) against a "
+        "scripted API: every followed link starts from a matching status and the derived case carries the denoted values",
+        "CPython int() = the model's acceptance set: whitespace/digit tables compared over all 1,112,064 code points, "
+        "sign/underscore grammar on generated strings",
+    ]
+    chk.assumptions += [
+        "case ids are unique per generated case (StepOutputWrapper hashes by case id)",
+        "get_parameters_strategy(exclude=explicit names) never yields an excluded name (hypothesis-jsonschema / schemathesis "
+        "generation, exercised by the real-target sample)",
+        "header names are ASCII (str.lower modelled on ASCII only); JSON object keys are unique strings",
+        "the documented reading of `#`: a pointer/extractor runs to the next `}` or the end of the expression",
+    ]
+    chk.trusted += ["Python re, requests (URL preparation), json; Hypothesis stateful engine (with the adapter noted under notes)"]
 
 
 def replay(chk, data):
